@@ -410,7 +410,22 @@ func init() {
 	})
 	reg("time.After", func(fr *frame, args []value) value { return &chanv{cap: 1} })
 	reg("time.NewTimer", func(fr *frame, args []value) value { panic(unsupported("time.NewTimer")) })
-	reg("time.NewTicker", func(fr *frame, args []value) value { panic(unsupported("time.NewTicker")) })
+	// a ticker that never fires within the harness (time-driven branches of a select loop are
+	// outside the step being checked; stated as a bound where used)
+	reg("time.NewTicker", func(fr *frame, args []value) value {
+		t := fr.i.prog.ImportedPackage("time").Type("Ticker").Type()
+		cell := zero(t)
+		st := cell.(structure)
+		ts := t.Underlying().(*types.Struct)
+		for k := 0; k < ts.NumFields(); k++ {
+			if ts.Field(k).Name() == "C" {
+				st[k] = &chanv{cap: 1}
+			}
+		}
+		var c value = st
+		return &c
+	})
+	reg("(*time.Ticker).Stop", func(fr *frame, args []value) value { return nil })
 
 	// ---- runtime / os ----
 	reg("runtime.Gosched", func(fr *frame, args []value) value { return nil })
